@@ -183,6 +183,10 @@ func composedBases(keys []keyCase, passes []passCase, formats []string) []base {
 					js = composeV3(k.d, p.pass, kdfSpec{kdf: "scrypt", n: 2, r: 8, p: 1, dklen: 32, salt: salt}, iv, addrHex, fixedUUID)
 				case "v3-scrypt-short": // plaintext without its leading zero bytes, accepted on read (repo vectors 31_byte_key / 30_byte_key)
 					js = composeV3(bytes.TrimLeft(k.d, "\x00"), p.pass, kdfSpec{kdf: "scrypt", n: 2, r: 8, p: 1, dklen: 32, salt: salt}, iv, addrHex, fixedUUID)
+				case "v3-scrypt-0x": // the address member written with a 0x prefix, as other wallets do
+					js = composeV3(k.d, p.pass, kdfSpec{kdf: "scrypt", n: 2, r: 8, p: 1, dklen: 32, salt: salt}, iv, "0x"+addrHex, fixedUUID)
+				case "v3-scrypt-0X": // ... upper case
+					js = composeV3(k.d, p.pass, kdfSpec{kdf: "scrypt", n: 2, r: 8, p: 1, dklen: 32, salt: salt}, iv, "0X"+strings.ToUpper(addrHex), fixedUUID)
 				case "v3-pbkdf2":
 					js = composeV3(k.d, p.pass, kdfSpec{kdf: "pbkdf2", c: 2, dklen: 32, salt: salt}, iv, addrHex, fixedUUID)
 				case "v1-scrypt":
@@ -579,6 +583,7 @@ func TestCheck(t *testing.T) {
 
 	// -- 2. KeyStore API round trips -----------------------------------------------------------
 	keystoreRoundTrips(run, w0, keys, passes)
+	concurrentStores(run)
 	phase("keystore-api")
 
 	// -- 3. bases --------------------------------------------------------------------------------
@@ -588,6 +593,7 @@ func TestCheck(t *testing.T) {
 	}
 	bases := composedBases(keys, passes, formats)
 	bases = append(bases, composedBases(keys[3:5], passes[:2], []string{"v3-scrypt-short"})...)
+	bases = append(bases, composedBases(keys[:2], passes[:1], []string{"v3-scrypt-0x", "v3-scrypt-0X"})...)
 	vecs := repoVectors()
 	for _, v := range vecs {
 		if v.cheap {
@@ -724,6 +730,67 @@ func roundTrips(run *ev.Run, keys []keyCase, passes []passCase) {
 func clonePriv(p *btcec.PrivateKey) *btcec.PrivateKey {
 	c, _ := btcec.PrivKeyFromBytes(p.Serialize())
 	return c
+}
+
+// concurrentStores: several goroutines store distinct known keys into ONE key directory at the same time
+// (a node serving personal_importRawKey / personal_newAccount over several connections does this). At
+// quiescence every account's file decrypts, with the passphrase it was stored under, to its own key. The
+// goroutines run free; the oracle is the quiescent state only.
+func concurrentStores(run *ev.Run) {
+	w := newKsWorker("concurrent")
+	defer os.RemoveAll(w.dir)
+	rounds := 3
+	if run.Thorough() {
+		rounds = 25
+	}
+	for r := 0; r < rounds; r++ {
+		ks := keystore.NewKeyStore(w.freshDir(), 2, 1)
+		const workers, per = 8, 6
+		type stored struct {
+			d    []byte
+			pass string
+			acc  accounts.Account
+			err  error
+		}
+		res := make([][]stored, workers)
+		var wg sync.WaitGroup
+		for g := 0; g < workers; g++ {
+			wg.Add(1)
+			go func(g int) {
+				defer wg.Done()
+				for i := 0; i < per; i++ {
+					d := fixedBytes("concurrent-key", fmt.Sprintf("%d/%d/%d", r, g, i), 32)
+					d[0] &= 0x7f
+					priv, _ := btcec.PrivKeyFromBytes(d)
+					pass := fmt.Sprintf("pass-%d-%d", g, i%2) // two passphrases per worker: same-passphrase overwrites would otherwise decrypt
+					acc, err := ks.ImportECDSA(priv, pass)
+					res[g] = append(res[g], stored{d, pass, acc, err})
+				}
+			}(g)
+		}
+		wg.Wait()
+		run.Eval(workers * per)
+		for g := range res {
+			for _, st := range res[g] {
+				if st.err != nil {
+					run.Violate(ev.Violation{Scenario: "keystore-concurrent", Oracle: "store-succeeds", CaseID: "ImportECDSA", Detail: map[string]interface{}{"observed": st.err.Error()}})
+					return
+				}
+				js, err := os.ReadFile(st.acc.URL.Path)
+				if err != nil {
+					run.Violate(ev.Violation{Scenario: "keystore-concurrent", Oracle: "file-holds-its-own-key", CaseID: "ImportECDSA", Detail: map[string]interface{}{"observed": "key file of a successfully stored account missing: " + err.Error()}})
+					return
+				}
+				k, err := keystore.DecryptKey(js, st.pass)
+				if err != nil || !bytes.Equal(pad32(k.PrivateKey.Serialize()), st.d) {
+					run.Violate(ev.Violation{Scenario: "keystore-concurrent", Oracle: "file-holds-its-own-key", CaseID: "ImportECDSA",
+						Detail: map[string]interface{}{"observed": fmt.Sprintf("after %d goroutines stored %d keys each into one directory, the file of account %x does not decrypt to the key stored under it (error %v)", workers, per, st.acc.Address, err)}})
+					return
+				}
+			}
+		}
+		run.Class("keystore-concurrent/round-ok")
+	}
 }
 
 // keystoreRoundTrips drives NewAccount / ImportECDSA / Unlock / Lock / Export / Import / Update / Delete.
@@ -1020,6 +1087,15 @@ func tamperBases(run *ev.Run, bases []base) []base {
 		"v3-pbkdf2/key=lead1/pass=nonascii": true, "v3-pbkdf2/key=ord1/pass=empty": true,
 		"v1-scrypt/key=lead1/pass=nonascii": true, "v1-scrypt/key=n-1/pass=long200": true,
 		"v3-scrypt-short/key=lead1/pass=a": true, "v3-scrypt-short/key=lead2/pass=empty": true,
+	}
+	// the formats with a prefixed address member: their first base each
+	for _, f := range []string{"v3-scrypt-0x", "v3-scrypt-0X"} {
+		for _, b := range bases {
+			if b.format == f {
+				pick[b.name] = true
+				break
+			}
+		}
 	}
 	var out []base
 	for _, b := range bases {
